@@ -382,7 +382,12 @@ class CDS(Payoff):
             if default_time > self._T
             else (1 - self.recovery_rate) * self._df(default_time)
         )
-        fixed_leg = self.spread * (1 - self._df(min(self._T, default_time))) / self._r
+        payment_end = min(self._T, default_time)
+        if self._r == 0:
+            # no discounting: the annuity (1 - exp(-r*t))/r is t
+            fixed_leg = self.spread * payment_end
+        else:
+            fixed_leg = self.spread * (1 - self._df(payment_end)) / self._r
         # small trick as payoffs are already discounted in the MC engine
         dl = default_leg / self._df_T
         fl = fixed_leg / self._df_T
